@@ -21,6 +21,13 @@ def call(f, *args, **kwargs):
         self = getattr(f, "__self__", None)
         if isinstance(self, str) and getattr(f, "__name__", "") == "join" and len(args) == 1 and not kwargs:
             items = list(args[0])
+            if self == "" and items and all(isinstance(x, models.SHex) for x in items):
+                out = SBytes([])
+                for x in items:
+                    out = out + x.b
+                return models.SHex(out)
+            if self == "" and not items:
+                return ""
             if any(getattr(x, "_sx_str", False) is True for x in items):
                 from . import sstr
                 return sstr.join(self, items)
@@ -79,6 +86,16 @@ def _memo_call(f, args, kwargs):
     r = call(f.__wrapped__, *args, **kwargs)
     entries.append((key, r))
     return r
+
+
+def strmod(fmt, val):
+    """'%02x' % byte with a symbolic byte: two lower-case hex digits, kept as the byte itself (models.SHex)"""
+    if Ctx.current is not None and isinstance(val, SInt) and fmt == "%02x":
+        c = cur()
+        if c.check(z3.Not(z3.And(val.e >= 0, val.e <= 255))) == z3.unsat:
+            models._used("'%02x' % byte (kept as the byte; formatting trusted)")
+            return models.SHex(SBytes([val]))
+    return fmt % val
 
 
 _SYMKEYS = {}  # id(dict) -> (solver of the run, [(key, value)]): entries stored under symbolic keys
